@@ -3,10 +3,13 @@ import BibVerif.Wire.AddAll
 import BibVerif.Wire.Stack
 import BibVerif.Wire.Heap
 import BibVerif.Wire.Latex
+import BibVerif.Wire.EntryOps
+import BibVerif.Wire.Library
 namespace Bib.Wire
 
 /-- every command the driver understands -/
 def handlers : List (String × Handler) :=
   splitHandlers ++ addAllHandlers ++ stackHandlers ++ heapHandlers ++ latexHandlers
+  ++ entryOpsHandlers ++ libraryHandlers
 
 end Bib.Wire
